@@ -729,9 +729,14 @@ func (c c07) Run(e *Env, cs *Case) (*Outcome, error) {
 		o.Probes["dependant-recompiled-over-damaged-dependency"]++
 	}
 	if p.DebugDir {
-		sum, n := DebugDirSum(filepath.Join(w.Out, "debugdir"))
+		deps, err := e.Deps(p.Prog, edits)
+		if err != nil {
+			return nil, err
+		}
+		sum, n, extras := DebugDirSum(filepath.Join(w.Out, "debugdir"), deps)
+		o.Probes["debugdir-files-of-unbuilt-packages"] += extras
 		if sum != ref.DebugSum {
-			return viol("debugdir-differs", fmt.Sprintf("-debugdir tree after damaging %s has %d files and differs from the cold reference (%d files)", key, n, ref.DebugN))
+			return viol("debugdir-differs", fmt.Sprintf("-debugdir trees of the build's packages after damaging %s have %d files and differ from the cold reference (%d files)", key, n, ref.DebugN))
 		}
 	}
 	if !p.Noop || p.Ungated {
